@@ -64,19 +64,30 @@ def template(t, n):
         return [raw([a], [b, c]), raw([b], [c]), raw([a], [c])]
     if t == 11:
         return [raw([a], [b], pop=Pi1), raw([a], [b]), raw([b], pop=Pi1)]
+    if t == 12:
+        return [raw([a], [b]), raw([b], [c]), raw([c], [d]), raw([d])]
+    if t == 13:
+        return [raw([a], [b]), Sum(raw([b, c]), fs([c])), raw([c], [d]), raw([a], [d])]
     raise ValueError(t)
 
 
-N_TEMPLATES = 12
+N_TEMPLATES = 14
+PERMS4 = list(itt.permutations(range(4)))
 
 
 def present(factors, p, nest, rev):
     """One presentation of the product of the factors: factor order p, nesting nest, child/parent order rev."""
     k = len(factors)
-    perms = PERMS3 if k == 3 else PERMS2
-    fs = [factors[i] for i in perms[p % len(perms)]]
+    perms = PERMS4 if k == 4 else PERMS3 if k == 3 else PERMS2
+    fs = [factors[i] for i in perms[(p * 5) % len(perms)]] if k == 4 else [factors[i] for i in perms[p % len(perms)]]
     if rev:
         fs = [flip(f) for f in fs]
+    if k == 4:
+        if nest == 1:  # three levels, right-deep
+            return Product((fs[0], Product((fs[1], Product((fs[2], fs[3]))))))
+        if nest == 2:  # three levels, left-deep
+            return Product((Product((Product((fs[0], fs[1])), fs[2])), fs[3]))
+        return Product(tuple(fs))
     if k == 3 and nest == 1:
         return Product((Product((fs[0], fs[1])), fs[2]))
     if k == 3 and nest == 2:
@@ -102,11 +113,11 @@ def ordering(o, n):
 
 def idempotent(t: int, m: int, o: int) -> bool:
     """
-    pre: 0 <= t < 12 and 0 <= m < 24 and 0 <= o < 3
+    pre: 0 <= t < 14 and 0 <= m < 24 and 0 <= o < 3
     post: __return__
     """
     n = NAME_PERMS[m]
-    e = Product(tuple(template(t, n)))
+    e = present(template(t, n), 0, 1, 0)
     od = ordering(o, n)
     c1 = canonicalize(e, od)
     c2 = canonicalize(c1, od)
@@ -115,7 +126,7 @@ def idempotent(t: int, m: int, o: int) -> bool:
 
 def presentation_invariant(t: int, m: int, o: int, p: int, nest: int, rev: int) -> bool:
     """
-    pre: 0 <= t < 12 and 0 <= m < 24 and 0 <= o < 3 and 0 <= p < 6 and 0 <= nest < 3 and 0 <= rev < 2
+    pre: 0 <= t < 14 and 0 <= m < 24 and 0 <= o < 3 and 0 <= p < 6 and 0 <= nest < 3 and 0 <= rev < 2
     post: __return__
     """
     n = NAME_PERMS[m]
@@ -128,7 +139,7 @@ def presentation_invariant(t: int, m: int, o: int, p: int, nest: int, rev: int) 
 
 def keys_total(t: int, u: int, m: int) -> bool:
     """
-    pre: 0 <= t < 12 and 0 <= u < 12 and 0 <= m < 24
+    pre: 0 <= t < 14 and 0 <= u < 14 and 0 <= m < 24
     post: __return__
     """
     n = NAME_PERMS[m]
@@ -144,7 +155,7 @@ def keys_total(t: int, u: int, m: int) -> bool:
 
 def reach_twin(t: int, m: int) -> bool:
     """
-    pre: 0 <= t < 12 and 0 <= m < 24
+    pre: 0 <= t < 14 and 0 <= m < 24
     post: __return__
     """
     n = NAME_PERMS[m]
